@@ -93,6 +93,10 @@ def recorded_on_the_field(U, chunk):
               or bool([1 for _, k, t in prog if k == "read" and tuple(t) in S.DEFINED_F and dex_of[t[0]] != dex_of["LA;"]]), got=me["read"], **g)
     U.ensures("the accessing method lists exactly the fields it writes", [x for x in me["write"] if (x[0][0] != "LX;")] == sorted(set(acc_write))
               or bool([1 for _, k, t in prog if k == "write" and tuple(t) in S.DEFINED_F and dex_of[t[0]] != dex_of["LA;"]]), got=me["write"], **g)
+    fb = dx.get_field_analysis([f for f in index["LB;"].fields if f.get_name() == "g"][0])
+    U.ensures("a field read from its own class in another DEX file is recorded on that field (pool indices are per DEX)",
+              fb is not None and {(S.ckey(c), S.mkey(m), o2) for c, m, o2 in fb.get_xref_read(True)} == {(("LB;", False), ("LB;", "m1", "()V", False), 16)},
+              got=None if fb is None else sorted((S.ckey(c), S.mkey(m), o2) for c, m, o2 in fb.get_xref_read(True)), **g)
     cross = any(k in ("read", "write") and tuple(t) in S.DEFINED_F and t[0] != "LA;" and dex_of[t[0]] == dex_of["LA;"] for _, k, t in prog)
     U.ensures("each defined field has exactly one FieldAnalysis", all(d["n"] == 1 for d in v["fields"].values()),
               unless=[U.known("KF-C14-1", cross)], counts={str(k): d["n"] for k, d in v["fields"].items() if d["n"] != 1}, **g)
